@@ -575,3 +575,58 @@ pub mod spin_shim {
         }
     }
 }
+
+// ---------------------------------------------------------------------------------------------
+// AtomicUsize with a scheduling point in front of every access
+// ---------------------------------------------------------------------------------------------
+
+/// Drop-in for `std::sync::atomic::AtomicUsize` in lock-free structures whose interleavings the
+/// simulator explores (currently the block queue / block pool): every access is a yield point,
+/// so a composition of accesses (load then store where a read-modify-write is needed) can be
+/// interleaved.
+#[derive(Debug, Default)]
+pub struct AtomicUsize(std::sync::atomic::AtomicUsize);
+
+impl AtomicUsize {
+    pub const fn new(v: usize) -> Self {
+        AtomicUsize(std::sync::atomic::AtomicUsize::new(v))
+    }
+    fn y() {
+        super::rt::yield_point(super::rt::site::POOL_QUEUE);
+    }
+    pub fn load(&self, order: std::sync::atomic::Ordering) -> usize {
+        Self::y();
+        self.0.load(order)
+    }
+    pub fn store(&self, v: usize, order: std::sync::atomic::Ordering) {
+        Self::y();
+        self.0.store(v, order)
+    }
+    pub fn fetch_add(&self, v: usize, order: std::sync::atomic::Ordering) -> usize {
+        Self::y();
+        self.0.fetch_add(v, order)
+    }
+    pub fn fetch_sub(&self, v: usize, order: std::sync::atomic::Ordering) -> usize {
+        Self::y();
+        self.0.fetch_sub(v, order)
+    }
+    pub fn compare_exchange(
+        &self,
+        current: usize,
+        new: usize,
+        success: std::sync::atomic::Ordering,
+        failure: std::sync::atomic::Ordering,
+    ) -> Result<usize, usize> {
+        Self::y();
+        self.0.compare_exchange(current, new, success, failure)
+    }
+    pub fn fetch_update<F: FnMut(usize) -> Option<usize>>(
+        &self,
+        set_order: std::sync::atomic::Ordering,
+        fetch_order: std::sync::atomic::Ordering,
+        f: F,
+    ) -> Result<usize, usize> {
+        Self::y();
+        self.0.fetch_update(set_order, fetch_order, f)
+    }
+}
